@@ -80,7 +80,12 @@ def one_spec(rep, rng, real):
     for i, c in enumerate(configs):
         out = engine.run_dag(c)
         if getattr(out, 'aborted', None):
-            rep.inconclusive(f'harness abort: {out.aborted}', {'scenario': c})
+            if out.aborted.startswith('spin'):
+                rep.violation('never-returns', f'config{i}: run_tasks never returns on an all-success DAG: {out.aborted}',
+                              {'scenario': c})
+                rep.case(scn_key(c), True)
+            else:
+                rep.inconclusive(f'harness abort: {out.aborted}', {'scenario': c})
             continue
         exp, _ = engine.expected_values(c, out)
         ok = check(rep, c, out, exp, f'config{i}')
